@@ -400,6 +400,77 @@ pub fn record(args: &[String]) -> i32 {
 }
 
 /// keep only paths that are pairwise shape-consistent (at every shared prefix the next elements are both keys or both indices)
+/// candidate path elements read off the raw bytes (works on malformed text too): every quoted run as a key, small indices
+fn candidate_paths(bytes: &[u8]) -> Vec<Vec<PE>> {
+    let mut keys: Vec<String> = Vec::new();
+    let mut i = 0;
+    while i < bytes.len() {
+        if bytes[i] == b'"' {
+            let mut j = i + 1;
+            while j < bytes.len() && bytes[j] != b'"' { if bytes[j] == b'\\' { j += 1; } j += 1; }
+            if j < bytes.len() { if let Ok(k) = std::str::from_utf8(&bytes[i + 1..j]) { if !k.contains('\\') && !keys.iter().any(|x| x == k) && keys.len() < 3 { keys.push(k.to_string()); } } }
+            i = j + 1;
+        } else { i += 1; }
+    }
+    let mut elems: Vec<PE> = keys.into_iter().map(PE::Key).collect();
+    elems.push(PE::Idx(0)); elems.push(PE::Idx(1)); elems.push(PE::Key("zz".into()));
+    let mut out: Vec<Vec<PE>> = vec![vec![]];
+    for e in &elems { out.push(vec![e.clone()]); }
+    for e in &elems { for f in elems.iter().take(3) { out.push(vec![e.clone(), f.clone()]); } }
+    out
+}
+
+/// exhaustive small scope: every text explored by MC_JsonText (stride / phase select a sample) x candidate paths
+/// through get / get_many / the iterators; events validated by Trace_LazyGet like the sampled ones
+pub fn record_beh(args: &[String]) -> i32 {
+    let out = arg(args, "--out").expect("--out");
+    let shards = arg_u64(args, "--shards", 1);
+    let stride = arg_u64(args, "--stride", 1).max(1);
+    let phase = arg_u64(args, "--phase", 0) % stride;
+    let seed = arg_u64(args, "--seed", 1);
+    let tb = crate::jt::Tables::load(arg(args, "--tables").expect("--tables"));
+    let recs = crate::jt::load_recs(arg(args, "--beh").expect("--beh"));
+    let idx: std::collections::HashMap<String, usize> = recs.iter().enumerate().map(|(i, r)| (crate::jt::key(&r.t), i)).collect();
+    // --filter value: only texts whose first value is complete for the validate-and-skip machine (whole text or prefix)
+    let only_value = arg(args, "--filter") == Some("value");
+    let mut inflight = Inflight::new(arg(args, "--inflight"));
+    let mut rng = Rng::new(seed ^ 0x6c62);
+    let mut outs: Vec<Out> = (0..shards).map(|i| Out::create(&format!("{out}.{i}.ndjson"))).collect();
+    crate::jt::DUMP_ON.store(true, std::sync::atomic::Ordering::Relaxed);
+    let (mut events, mut texts, mut panics, mut okdocs) = (0u64, 0u64, 0u64, 0u64);
+    let mut seen = 0u64;
+    for (ri, r) in recs.iter().enumerate() {
+        if r.t.is_empty() || (only_value && !(r.lax || r.plax)) { continue; }
+        seen += 1;
+        if (seen - 1) % stride != phase { continue; }
+        let mut docs: Vec<(Vec<u8>, &str)> = vec![(tb.canon_bytes(&r.t), "beh-canon")];
+        let vs = crate::jt::variants(r, &idx, &recs, &tb, &mut rng, false);
+        if vs.len() > 1 { let v = &vs[1 + rng.below(vs.len() - 1)]; docs.push((v.bytes.clone(), "beh-variant")); }
+        for (doc, origin) in docs {
+            texts += 1;
+            inflight.set(ri as u64, &doc);
+            let wf = catch(|| sonic_rs::from_slice::<serde::de::IgnoredAny>(&doc).is_ok()).unwrap_or(false);
+            if wf { okdocs += 1; }
+            let paths = candidate_paths(&doc);
+            let mut evs: Vec<J> = Vec::new();
+            // single lookups: every candidate of length <= 1, a rotating selection of the deeper ones
+            for (k, p) in paths.iter().enumerate() { if p.len() <= 1 || (k + ri) % 4 == 0 { evs.push(get_event(&doc, p, wf)); } }
+            let many: Vec<Vec<PE>> = consistent(paths.iter().filter(|p| !p.is_empty()).take(6).cloned().collect());
+            if !many.is_empty() { evs.push(many_event(&doc, &many, wf)); }
+            evs.push(iter_event(&doc, wf));
+            for mut ev in evs {
+                if ev.to_string().contains("\"panic\":true") { panics += 1; }
+                ev["origin"] = json!(origin);
+                outs[(events % shards) as usize].line(&ev);
+                events += 1;
+            }
+        }
+    }
+    for o in outs.iter_mut() { o.flush(); }
+    println!("{}", json!({"suite":"lg-record-beh","events":events,"texts":texts,"wellformed_texts":okdocs,"panics":panics,"stride":stride}));
+    0
+}
+
 fn consistent(ps: Vec<Vec<PE>>) -> Vec<Vec<PE>> {
     let mut out: Vec<Vec<PE>> = Vec::new();
     'next: for p in ps {
